@@ -1,88 +1,62 @@
 (* PoolLive.v — deadlock freedom of the thread-pool model (C11: stop() and the destructor terminate and join all
-   workers for every timing, including stop() from a worker): every reachable state in which some thread has
-   not finished has an enabled step.  Part of the Pool component's proofs (kept in its own file for build time). *)
+   workers for every timing, including stop() from a worker and concurrent stops): every reachable state in which
+   some thread has not finished has an enabled step — except when a client thread sits in worker() of an idle pool
+   that nobody stops (a deadlock of the client program, not of the pool). *)
 From Cocls Require Import Base BaseProofs PoolDefs PoolProofs.
 Require Import Lia.
 Local Open Scope nat_scope.
 
-Definition awake (p : pc) : bool := match p with WIdle | WSub _ _ | WStop => true | _ => false end.
-Definition wpc_ok (p : pc) : bool := match p with WIdle | WSleep | WSub _ _ | WStop => true | _ => false end.
-Definition b2n (b : bool) : nat := if b then 1 else 0.
+Definition awake (p : pc) : bool :=
+  match p with WIdle | WSub _ _ _ | WHop _ _ | WPeek _ _ | WStop _ | WQry _ _ => true | _ => false end.
+Definition wpc_ok (p : pc) : bool := match p with WSleep => true | _ => awake p end.
 
 Definition Wake (s : st) : Prop :=
   exit_ s = false -> queue s <> [] -> 0 < tokens s \/ exists i p, T s i = Some p /\ awake p = true.
 
 Record InvC (s : st) : Prop := {
-  c_le : tokens s <= sleepers s;
-  c_ex : exit_ s = true -> sleepers s <= tokens s;
+  c_ex : exit_ s = true -> forall i, T s i = Some WSleep -> is_woken s i = true;
+  c_st : stopped s = true -> forall i l q a, T s i = Some (SWait l q a) -> is_woken s i = true;
+  c_first : exit_ s = true -> stopped s = false -> exists t p, T s t = Some p /\ stopper p = true;
   c_wake : Wake s;
   c_wpc : exit_ s = false -> forall i p, T s i = Some p -> nclients s <= i -> wpc_ok p = true;
   c_hasw : nclients s < length (thrs s);
-  c_uniq : forall i j l q a l' q' a', T s i = Some (Join l q a) -> T s j = Some (Join l' q' a') -> i = j;
-  c_jw : forall i l q a w, T s i = Some (Join l q a) -> In w l -> w <> i /\ nclients s <= w < length (thrs s);
-  c_thr : forall w, In w (threads s) -> nclients s <= w < length (thrs s)
+  c_jw : forall t l q f a w, T s t = Some (Join l q f a) -> In w l -> poolw s w /\ w <> t;
+  c_wk0 : exit_ s = false -> woken s = []
 }.
 
-Lemma filter_set_nth (l : list pc) : forall i p old, nth_error l i = Some old ->
-  length (filter is_sleep (set_nth l i p)) + b2n (is_sleep old) = length (filter is_sleep l) + b2n (is_sleep p).
-Proof.
-  induction l as [|x l IH]; intros [|i] p old H; cbn [nth_error] in H; try discriminate.
-  - inversion H; subst. cbn [set_nth filter]. destruct (is_sleep old), (is_sleep p); cbn [length b2n]; lia.
-  - cbn [set_nth filter]. specialize (IH i p old H). destruct (is_sleep x); cbn [length]; lia.
-Qed.
-
-Lemma sleepers_set s s' i p old : T s i = Some old -> thrs s' = set_nth (thrs s) i p ->
-  sleepers s' + b2n (is_sleep old) = sleepers s + b2n (is_sleep p).
-Proof. intros H E. unfold sleepers. rewrite E. apply filter_set_nth. exact H. Qed.
-
-Lemma sleepers_pos s i : T s i = Some WSleep -> 1 <= sleepers s.
-Proof.
-  intros H. unfold sleepers. apply nth_error_In in H.
-  assert (X : In WSleep (filter is_sleep (thrs s))) by (apply filter_In; split; [exact H|reflexivity]).
-  destruct (filter is_sleep (thrs s)); [contradiction|cbn; lia].
-Qed.
-
-Lemma sleepers_zero s i : sleepers s = 0 -> T s i <> Some WSleep.
-Proof. intros Z H. pose proof (sleepers_pos s i H). lia. Qed.
-
-Lemma TT_set s s' i p old : T s i = Some old -> thrs s' = set_nth (thrs s) i p ->
-  forall j, T s' j = if Nat.eqb i j then Some p else T s j.
-Proof.
-  intros H Et j. pose proof (T_lt s i old H) as L. unfold T. rewrite Et. destruct (Nat.eqb_spec i j) as [E|E].
-  - subst. apply nth_error_set_nth_same. exact L.
-  - apply nth_error_set_nth_other. exact E.
-Qed.
-
-Lemma invc_frame s s' i p old : InvB s -> InvC s -> T s i = Some old ->
+Lemma invc_frame s s' i p old : InvC s -> T s i = Some old ->
   thrs s' = set_nth (thrs s) i p -> nclients s' = nclients s ->
-  tokens s' <= sleepers s' ->
-  (exit_ s' = true -> sleepers s' <= tokens s') ->
+  (exit_ s' = true -> (forall j, j <> i -> T s j = Some WSleep -> is_woken s' j = true) /\
+                      (p = WSleep -> is_woken s' i = true)) ->
+  (stopped s' = true -> (forall j l q a, j <> i -> T s j = Some (SWait l q a) -> is_woken s' j = true) /\
+                         (forall l q a, p = SWait l q a -> is_woken s' i = true)) ->
+  (exit_ s' = true -> stopped s' = false -> stopper p = true \/ exists t pt, t <> i /\ T s t = Some pt /\ stopper pt = true) ->
   Wake s' ->
   (exit_ s' = false -> exit_ s = false /\ (nclients s <= i -> wpc_ok p = true)) ->
-  (forall l q a, p = Join l q a ->
-     (forall j l' q' a', T s j = Some (Join l' q' a') -> j = i) /\
-     (forall w, In w l -> w <> i /\ nclients s <= w < length (thrs s))) ->
-  (threads s' = threads s \/ threads s' = []) ->
+  (forall l q f a w, p = Join l q f a -> In w l -> poolw s w /\ w <> i) ->
+  (exit_ s' = false -> woken s' = []) ->
   InvC s'.
 Proof.
-  intros B [C1 C2 C3 C4 C5 C6 C7 C8] H Et En F1 F2 F3 F4 F5 F6.
+  intros [C1 C2 C3 C4 C5 C6 C7 C8] H Et En Y1 Y2 Y3 Y4 Y5 Y6 Y7.
   pose proof (TT_set s s' i p old H Et) as TT.
   assert (LEN : length (thrs s') = length (thrs s)) by (rewrite Et; apply set_nth_length).
   constructor; auto.
-  - intros X j pj. rewrite TT, En. destruct (F4 X) as [X0 Xp]. destruct (Nat.eqb_spec i j) as [E|E].
+  - intros X j. rewrite TT. destruct (Y1 X) as [A Bq]. destruct (Nat.eqb_spec i j) as [E|E].
+    + intros Q. inversion Q. subst j. apply Bq. assumption.
+    + apply A. auto.
+  - intros X j l q a. rewrite TT. destruct (Y2 X) as [A Bq]. destruct (Nat.eqb_spec i j) as [E|E].
+    + intros Q. inversion Q. subst j. eapply Bq. eassumption.
+    + apply A. auto.
+  - intros X Sf. destruct (Y3 X Sf) as [Sp|(t & pt & Nt & Ht & St)].
+    + exists i, p. rewrite TT, Nat.eqb_refl. auto.
+    + exists t, pt. rewrite TT. assert (Nat.eqb i t = false) by (apply Nat.eqb_neq; auto). rewrite H0. auto.
+  - intros X j pj. rewrite TT, En. destruct (Y5 X) as [X0 Xp]. destruct (Nat.eqb_spec i j) as [E|E].
     + intros Q L. inversion Q; subst. apply Xp, L.
-    + apply C4, X0.
-  - rewrite En, LEN. exact C5.
-  - intros j k l q a l' q' a'. rewrite !TT.
-    destruct (Nat.eqb_spec i j) as [E1|E1]; destruct (Nat.eqb_spec i k) as [E2|E2]; intros Q1 Q2.
-    + congruence.
-    + inversion Q1. destruct (F5 _ _ _ H1) as [U _]. symmetry. rewrite <- E1. eapply U, Q2.
-    + inversion Q2. destruct (F5 _ _ _ H1) as [U _]. rewrite <- E2. eapply U, Q1.
-    + eapply C6; eassumption.
-  - intros j l q a w. rewrite TT, En, LEN. destruct (Nat.eqb_spec i j) as [E|E].
-    + intros Q Hin. inversion Q. destruct (F5 _ _ _ H1) as [_ V]. subst j. apply V, Hin.
+    + apply C5, X0.
+  - rewrite En, LEN. exact C6.
+  - intros t l q f a w. rewrite TT. unfold poolw. rewrite En, LEN. destruct (Nat.eqb_spec i t) as [E|E].
+    + intros Q Hin. inversion Q. subst t. eapply Y6; eassumption.
     + apply C7.
-  - intros w Hin. rewrite En, LEN. destruct F6 as [F6|F6]; rewrite F6 in Hin; [apply C8, Hin|contradiction].
 Qed.
 
 (* ways to re-establish Wake *)
@@ -99,42 +73,39 @@ Proof.
   intros W H Et A Ee Eq Ek X Q. rewrite Ee in X. rewrite Eq in Q. destruct (W X Q) as [Wt|(j & pj & Hj & Aj)].
   - left. lia.
   - right. pose proof (TT_set s s' i p old H Et) as TT. destruct (Nat.eqb_spec i j) as [E|E].
-    + subst j. destruct A as [A|A]; [congruence|]. exists i, p. rewrite TT, Nat.eqb_refl. auto.
+    + subst j. destruct A as [A|A]; [unfold T in *; congruence|]. exists i, p. rewrite TT, Nat.eqb_refl. auto.
     + exists j, pj. rewrite TT. apply Nat.eqb_neq in E. rewrite E. auto.
 Qed.
 
-Lemma next_client_props i r : is_sleep (next_client i r) = false /\ awake (next_client i r) = false /\
-  (forall l q a, next_client i r <> Join l q a) /\ wpc_ok (next_client i r) = false.
-Proof. unfold next_client. destruct r; [destruct (Nat.eqb i 0)|]; repeat split; discriminate. Qed.
-
-Lemma client_not_worker s i p : InvB s -> T s i = Some p -> is_client p = true -> ~ nclients s <= i.
-Proof. intros B H C. pose proof (b_class s B i p H) as [X _]. specialize (X C). lia. Qed.
-
-(* a thread that neither sleeps before nor after, and changes only its own pc *)
-Lemma invc_same s i p old : InvB s -> InvC s -> T s i = Some old ->
-  is_sleep old = false -> is_sleep p = false -> (awake old = false \/ awake p = true) ->
-  (exit_ s = false -> nclients s <= i -> wpc_ok p = true) ->
-  (forall l q a, p = Join l q a -> exists l0, old = Join l0 q a /\ forall w, In w l -> In w l0) ->
-  InvC (with_thr s i p).
+(* flags of other threads survive a wake-up of thread i *)
+Lemma is_woken_wake s i j : j <> i -> is_woken (wake s i) j = is_woken s j.
 Proof.
-  intros B C H So Sp A Wp J.
-  pose proof (sleepers_set s (with_thr s i p) i p old H eq_refl) as SL. rewrite So, Sp in SL. cbn [b2n] in SL.
-  apply (invc_frame s _ i p old B C H).
-  - reflexivity.
-  - reflexivity.
-  - change (tokens (with_thr s i p)) with (tokens s). pose proof (c_le s C). lia.
-  - change (tokens (with_thr s i p)) with (tokens s). change (exit_ (with_thr s i p)) with (exit_ s).
-    intros X. pose proof (c_ex s C X). lia.
-  - apply (wake_keep s _ i p old (c_wake s C) H); auto.
-  - change (exit_ (with_thr s i p)) with (exit_ s). auto.
-  - intros l q a E. destruct (J l q a E) as (l0 & -> & Sub). split.
-    + intros j l' q' a' Hj. eapply (c_uniq s C); eassumption.
-    + intros w Hin. eapply (c_jw s C); [exact H|apply Sub, Hin].
-  - left. reflexivity.
+  intros N. unfold wake. destruct (is_woken s i); [|reflexivity].
+  unfold is_woken, with_woken. cbn [woken].
+  induction (woken s) as [|x l IH]; [reflexivity|]. cbn [filter existsb].
+  destruct (Nat.eqb_spec x i) as [E|E]; cbn [negb].
+  - subst x. assert (Nat.eqb j i = false) by (apply Nat.eqb_neq; auto). rewrite H. cbn. exact IH.
+  - cbn [existsb]. rewrite IH. reflexivity.
 Qed.
 
-Lemma wpc_awake p : wpc_ok p = true -> is_sleep p = false -> awake p = true.
-Proof. destruct p; cbn; congruence. Qed.
+(* notify_all flags every thread that sleeps *)
+Lemma sleeper_ids_in s j p : T s j = Some p -> is_sleep p = true -> existsb (Nat.eqb j) (sleeper_ids s) = true.
+Proof.
+  intros H S. apply existsb_exists. exists j. split; [|apply Nat.eqb_refl].
+  unfold sleeper_ids. apply filter_In. split.
+  - apply in_seq. pose proof (T_lt s j p H). lia.
+  - unfold sleeps. unfold T in H. rewrite H. exact S.
+Qed.
+
+Lemma sleepers_pos s i p : T s i = Some p -> is_sleep p = true -> 1 <= sleepers s.
+Proof.
+  intros H S. unfold sleepers. apply nth_error_In in H.
+  assert (X : In p (filter is_sleep (thrs s))) by (apply filter_In; split; assumption).
+  destruct (filter is_sleep (thrs s)); [contradiction|cbn; lia].
+Qed.
+
+Lemma wpc_awake p : wpc_ok p = true -> p <> WSleep -> awake p = true.
+Proof. destruct p; cbn; try congruence; intros _ X; exfalso; apply X; reflexivity. Qed.
 
 Lemma some_worker_awake s : InvC s -> exit_ s = false -> sleepers s = 0 ->
   exists w pw, T s w = Some pw /\ nclients s <= w /\ awake pw = true.
@@ -143,238 +114,339 @@ Proof.
   destruct (nth_error (thrs s) (nclients s)) as [pw|] eqn:E; [|apply nth_error_None in E; lia].
   exists (nclients s), pw. split; [exact E|]. split; [lia|].
   apply wpc_awake; [apply (c_wpc s C X _ _ E); lia|].
-  destruct pw; try reflexivity. exfalso. eapply sleepers_zero; eauto.
+  intros ->. pose proof (sleepers_pos s _ _ E eq_refl). lia.
+Qed.
+
+(* a thread moves between pcs that do not sleep; flags, tokens and queue stay *)
+Lemma invc_move s i p old : InvC s -> T s i = Some old ->
+  is_sleep p = false -> (awake old = false \/ awake p = true) ->
+  (exit_ s = false -> nclients s <= i -> wpc_ok p = true) ->
+  (stopper old = true -> stopper p = true) ->
+  (forall l q f a w, p = Join l q f a -> In w l -> exists l0, old = Join l0 q f a /\ In w l0) ->
+  InvC (with_thr s i p).
+Proof.
+  intros C H Sp A Wp St J.
+  apply (invc_frame s _ i p old C H); unfold with_thr;
+    cbn [queue exit_ stopped threads tokens woken destroyed nclients thrs extw uad]; auto.
+  - intros X. split; [intros j _; apply (c_ex s C X)|]. intros ->. discriminate.
+  - intros X. split; [intros j l q a _; apply (c_st s C X)|]. intros l q a ->. discriminate.
+  - intros X Sf. destruct (c_first s C X Sf) as (t & pt & Ht & Spt). destruct (Nat.eq_dec t i) as [->|N].
+    + left. apply St. unfold T in *. congruence.
+    + right. exists t, pt. auto.
+  - apply (wake_keep s _ i p old (c_wake s C) H); auto.
+  - intros l q f a w E Hin. destruct (J l q f a w E Hin) as (l0 & -> & I0). eapply (c_jw s C); eassumption.
+  - apply (c_wk0 s C).
 Qed.
 
 Lemma invc_enqueue s i l k b p old : InvB s -> InvC s -> T s i = Some old ->
   is_sleep old = false -> is_sleep p = false -> (awake old = false \/ awake p = true) ->
-  (nclients s <= i -> wpc_ok p = true) -> (forall l0 q a, p <> Join l0 q a) ->
+  (nclients s <= i -> wpc_ok p = true) -> stopper p = false -> stopper old = false ->
   InvC (with_thr (fst (enqueue s i l k b)) i p).
 Proof.
-  intros B C H So Sp A Wp NJ.
-  pose proof (enqueue_shell s i l k b _ eq_refl) as (hq & he & ht & hk & hd & hn & hth & _).
+  intros B C H So Sp A Wp NSp NSo.
+  destruct (enqueue_shell s i l k b _ eq_refl) as (hq & he & hs & ht & hk & hw & hd & hn & hth & hc & hx & hu & _).
   set (s1 := fst (enqueue s i l k b)) in *.
-  assert (Et : thrs (with_thr s1 i p) = set_nth (thrs s) i p) by (unfold with_thr; cbn [thrs]; rewrite hth; reflexivity).
-  pose proof (sleepers_set s (with_thr s1 i p) i p old H Et) as SL. rewrite So, Sp in SL. cbn [b2n] in SL.
-  pose proof (c_le s C) as LE.
-  apply (invc_frame s _ i p old B C H).
-  - exact Et.
+  set (s' := with_thr s1 i p).
+  assert (Et : thrs s' = set_nth (thrs s) i p) by (unfold s', with_thr; cbn [thrs]; rewrite hth; reflexivity).
+  assert (E1 : exit_ s' = exit_ s) by exact he.
+  assert (E2 : stopped s' = stopped s) by exact hs.
+  assert (E3 : forall j, is_woken s' j = is_woken s j) by (intros j; unfold is_woken, s', with_thr; cbn [woken]; rewrite hw; reflexivity).
+  assert (E4 : woken s' = woken s) by exact hw.
+  assert (E5 : tokens s' = tokens s1) by reflexivity.
+  assert (E6 : queue s' = queue s1) by reflexivity.
+  apply (invc_frame s s' i p old C H Et).
   - exact hn.
-  - change (tokens (with_thr s1 i p)) with (tokens s1). rewrite hk.
-    destruct (exit_ s); [lia|]. destruct (Nat.ltb_spec (tokens s) (sleepers s)); lia.
-  - change (tokens (with_thr s1 i p)) with (tokens s1). change (exit_ (with_thr s1 i p)) with (exit_ s1).
-    rewrite hk, he. intros X. rewrite X. pose proof (c_ex s C X). lia.
-  - intros X Q. change (exit_ (with_thr s1 i p)) with (exit_ s1) in X. rewrite he in X.
-    change (tokens (with_thr s1 i p)) with (tokens s1). rewrite hk, X.
+  - rewrite E1. intros X. split; [intros j _; rewrite E3; apply (c_ex s C X)|]. intros ->. discriminate.
+  - rewrite E2. intros X. split; [intros j l0 q a _; rewrite E3; apply (c_st s C X)|]. intros l0 q a ->. discriminate.
+  - rewrite E1, E2. intros X Sf. destruct (c_first s C X Sf) as (t & pt & Ht & Spt). right. exists t, pt.
+    repeat split; auto. intros ->. unfold T in *. congruence.
+  - intros X Q. rewrite E1 in X. rewrite E5, hk, X, (c_wk0 s C X). cbn [length]. rewrite Nat.add_0_r.
     destruct (Nat.ltb_spec (tokens s) (sleepers s)) as [L|L]; [left; lia|].
     destruct (Nat.eq_dec (tokens s) 0) as [Z|Z]; [|left; lia].
     right. destruct (some_worker_awake s C X) as (w & pw & Hw & Lw & Aw); [lia|].
-    pose proof (TT_set s (with_thr s1 i p) i p old H Et) as TT.
+    pose proof (TT_set s s' i p old H Et) as TT.
     destruct (Nat.eqb_spec i w) as [E|E].
-    + subst w. exists i, p. rewrite TT, Nat.eqb_refl. split; [reflexivity|]. apply wpc_awake; auto.
+    + subst w. exists i, p. rewrite TT, Nat.eqb_refl. split; [reflexivity|]. apply wpc_awake; auto. intros ->. discriminate.
     + exists w, pw. rewrite TT. apply Nat.eqb_neq in E. rewrite E. auto.
-  - change (exit_ (with_thr s1 i p)) with (exit_ s1). rewrite he. auto.
-  - intros l0 q a E. exfalso. eapply NJ, E.
-  - left. exact ht.
+  - rewrite E1. auto.
+  - intros l0 q f a w E. subst p. discriminate.
+  - rewrite E1, E4. apply (c_wk0 s C).
 Qed.
 
-Lemma pc_after_props t a : is_sleep (pc_after t a) = false /\ (forall l q a0, pc_after t a <> Join l q a0).
+Lemma fin_pc_props t first a : is_sleep (fin_pc t first a) = false /\ (first = true -> stopper (fin_pc t first a) = true) /\
+  (forall l q f a0, fin_pc t first a <> Join l q f a0).
 Proof.
-  destruct a as [r| |[|]]; cbn [pc_after]; try (split; [reflexivity|discriminate]).
-  destruct (next_client_props t r) as (X & _ & Y & _). auto.
+  destruct first; cbn [fin_pc].
+  - repeat split; auto. discriminate.
+  - pose proof (pc_after_plain t a) as X. repeat split.
+    + destruct a as [r| |[|] r]; cbn [pc_after]; try reflexivity.
+      * unfold next_client. destruct r; [destruct (Nat.eqb t 0)|]; reflexivity.
+      * destruct r as [|[] r]; reflexivity.
+    + discriminate.
+    + intros l q f a0 E. rewrite E in X. discriminate.
 Qed.
 
-Lemma invc_stop_end s s0 i q a old : InvB s -> InvC s -> T s i = Some old -> is_sleep old = false ->
-  thrs s0 = thrs s -> nclients s0 = nclients s -> exit_ s0 = true -> tokens s0 <= sleepers s -> sleepers s <= tokens s0 ->
-  (threads s0 = threads s \/ threads s0 = []) ->
-  InvC (fst (stop_end s0 i q a)).
+(* the join loop of a stop(): from the state s0 right after the critical section / wake-up *)
+Lemma invc_aw s s0 t l q first a old : InvC s -> T s t = Some old ->
+  thrs s0 = thrs s -> nclients s0 = nclients s -> exit_ s0 = true ->
+  (forall j p, j <> t -> T s j = Some p -> is_sleep p = true -> (p = WSleep \/ stopped s0 = true) -> existsb (Nat.eqb j) (woken s0) = true) ->
+  (stopped s0 = false -> first = true \/ (l = [] /\ exists t' pt, t' <> t /\ T s t' = Some pt /\ stopper pt = true)) ->
+  (forall w, In w l -> poolw s w /\ w <> t) ->
+  InvC (fst (after_wait s0 t l q first a)).
 Proof.
-  intros B C H So Et En Ex K1 K2 Th.
-  pose proof (stop_end_shell s0 i q a _ eq_refl) as (hq & he & ht & hk & hd & hn & hth & _).
-  set (s' := fst (stop_end s0 i q a)) in *.
-  destruct (pc_after_props i a) as [Sp NJ].
-  assert (Et' : thrs s' = set_nth (thrs s) i (pc_after i a)) by (rewrite hth, Et; reflexivity).
-  pose proof (sleepers_set s s' i _ old H Et') as SL. rewrite So, Sp in SL. cbn [b2n] in SL.
-  apply (invc_frame s _ i (pc_after i a) old B C H).
-  - exact Et'.
+  intros C H Et En EX HW HF HJ.
+  destruct (after_wait_shell s0 t l q first a _ eq_refl) as (E & K & Q & D & Th).
+  set (s' := fst (after_wait s0 t l q first a)) in *.
+  destruct E as (e1 & e2 & e3 & e4 & e5 & e6 & e7 & e8 & e9).
+  set (p := match l with [] => fin_pc t first a | _ => Join l q first a end) in *.
+  destruct (fin_pc_props t first a) as (F1 & F2 & F3).
+  assert (SL : is_sleep p = false) by (unfold p; destruct l; [exact F1|reflexivity]).
+  assert (Et' : thrs s' = set_nth (thrs s) t p) by (rewrite Th, Et; reflexivity).
+  apply (invc_frame s s' t p old C H Et').
   - congruence.
-  - rewrite hk. lia.
-  - rewrite hk. intros _. lia.
+  - intros _. split.
+    + intros j Nj Hj. unfold is_woken. rewrite e5. apply (HW j WSleep Nj Hj); auto.
+    + intros ->. discriminate.
+  - rewrite e2. intros ST. split.
+    + intros j l0 q0 a0 Nj Hj. unfold is_woken. rewrite e5. apply (HW j _ Nj Hj); auto.
+    + intros l0 q0 a0 ->. discriminate.
+  - rewrite e2. intros _ ST. destruct (HF ST) as [->|(-> & t' & pt & N & Ht & Sp)].
+    + left. unfold p. destruct l; [apply F2; reflexivity|reflexivity].
+    + right. exists t', pt. auto.
   - apply wake_exit. congruence.
-  - rewrite he, Ex. discriminate.
-  - intros l0 q0 a0 E. exfalso. eapply NJ, E.
-  - rewrite ht. exact Th.
+  - rewrite e1, EX. discriminate.
+  - intros l0 q0 f0 a0 w E0. unfold p in E0. destruct l as [|w0 l]; [exfalso; eapply F3, E0|].
+    inversion E0; subst. apply HJ.
+  - rewrite e1, EX. discriminate.
 Qed.
 
-Lemma filter_ne_in (t : nat) (l : list nat) w : In w (filter (fun x => negb (Nat.eqb x t)) l) -> w <> t /\ In w l.
-Proof.
-  intros H. apply filter_In in H. destruct H as [H1 H2]. split; [|exact H1].
-  intros ->. rewrite Nat.eqb_refl in H2. discriminate.
-Qed.
+Lemma returned_as_aw s0 t a : fst (returned s0 t a) = fst (after_wait s0 t [] [] false a).
+Proof. unfold after_wait, stop_end, drop_all. cbn [fold_left]. destruct (returned s0 t a). reflexivity. Qed.
 
-Lemma invc_stop_mark s i a old : InvB s -> InvC s -> T s i = Some old -> is_sleep old = false ->
-  InvC (fst (stop_mark s i a)).
+Lemma invc_stop_mark s t a old : InvB s -> InvC s -> T s t = Some old -> stopper old = false -> is_sleep old = false ->
+  InvC (fst (stop_mark s t a)).
 Proof.
-  intros B C H So. unfold stop_mark.
-  set (s1 := mkSt [] true [] (sleepers s) (destroyed s) (nclients s) (clos s) (thrs s)).
-  set (a' := match a with AWorker _ => AWorker (existsb (Nat.eqb i) (threads s)) | _ => a end).
-  destruct (filter (fun w => negb (Nat.eqb w i)) (threads s)) as [|w l] eqn:F.
-  - apply (invc_stop_end s s1 i (queue s) a' old B C H So); try reflexivity; unfold s1; cbn [tokens threads]; auto.
-  - cbn [fst].
-    assert (Et : thrs (with_thr s1 i (Join (w :: l) (queue s) a')) = set_nth (thrs s) i (Join (w :: l) (queue s) a')) by reflexivity.
-    pose proof (sleepers_set s _ i (Join (w :: l) (queue s) a') old H Et) as SL. rewrite So in SL. cbn [b2n is_sleep] in SL.
-    apply (invc_frame s _ i (Join (w :: l) (queue s) a') old B C H).
-    + exact Et.
-    + reflexivity.
-    + change (tokens (with_thr s1 i (Join (w :: l) (queue s) a'))) with (sleepers s). lia.
-    + intros _. change (tokens (with_thr s1 i (Join (w :: l) (queue s) a'))) with (sleepers s). lia.
+  intros B C H NSo So. unfold stop_mark.
+  set (s1 := marked s (sleeper_ids s)).
+  set (a' := match a with AWorker _ r => AWorker (existsb (Nat.eqb t) (threads s)) r | _ => a end).
+  set (l := filter (fun w => negb (Nat.eqb w t)) (threads s)).
+  assert (HW : forall j p, j <> t -> T s j = Some p -> is_sleep p = true -> (p = WSleep \/ stopped s1 = true) ->
+               existsb (Nat.eqb j) (woken s1) = true).
+  { intros j p _ Hj S _. apply (sleeper_ids_in s j p Hj S). }
+  assert (OTHER : exit_ s = true -> stopped s = false -> exists t' pt, t' <> t /\ T s t' = Some pt /\ stopper pt = true).
+  { intros X Sf. destruct (c_first s C X Sf) as (t' & pt & Ht & Sp). exists t', pt. repeat split; auto.
+    intros ->. unfold T in *. congruence. }
+  destruct (negb (negb (exit_ s)) && negb (is_cur a) && negb (stopped s)) eqn:COND.
+  - apply andb_prop in COND. destruct COND as [COND C3]. apply andb_prop in COND. destruct COND as [C1 C2].
+    assert (X : exit_ s = true) by (destruct (exit_ s); [reflexivity|discriminate]).
+    assert (Sf : stopped s = false) by (destruct (stopped s); [discriminate|reflexivity]).
+    cbn [fst]. set (s' := with_thr s1 t (SWait l (queue s) a')).
+    apply (invc_frame s s' t (SWait l (queue s) a') old C H); try reflexivity.
+    + intros _. split; [|discriminate]. intros j Nj Hj. apply (HW j WSleep Nj Hj); auto.
+    + unfold s', with_thr, s1, marked. cbn [stopped]. rewrite Sf. discriminate.
+    + intros _ _. right. apply OTHER; assumption.
     + apply wake_exit. reflexivity.
-    + unfold with_thr, s1. cbn [exit_]. discriminate.
-    + intros l0 q0 a0 E. inversion E; subst l0 q0 a0. split.
-      * intros j l' q' a'' Hj. exfalso.
-        pose proof (b_join s B _ _ _ _ Hj) as X. destruct (b_exit s B X) as [_ Th]. rewrite Th in F. discriminate.
-      * intros w0 Hin. rewrite <- F in Hin. apply filter_ne_in in Hin. destruct Hin as [N Hin].
-        split; [exact N|apply (c_thr s C), Hin].
-    + right. reflexivity.
+    + discriminate.
+    + intros l0 q0 f0 a0 w E0. discriminate.
+    + discriminate.
+  - apply (invc_aw s s1 t l (queue s) (negb (exit_ s)) a' old C H); try reflexivity.
+    + exact HW.
+    + intros Sf. change (stopped s1) with (stopped s) in Sf. destruct (exit_ s) eqn:X; [|left; reflexivity].
+      right. destruct (b_exit s B X) as [_ Th]. split; [unfold l; rewrite Th; reflexivity|]. apply OTHER; auto.
+    + intros w Hin. apply filter_ne_in in Hin. destruct Hin as [N Hin]. split; [apply (b_thr s B w Hin)|exact N].
 Qed.
 
-Lemma invc_worker_cs s s0 w old : InvB s -> InvC s -> T s w = Some old ->
-  ((old = WIdle /\ tokens s0 = tokens s) \/ (old = WSleep /\ tokens s0 = pred (tokens s) /\ 0 < tokens s)) ->
-  clos s0 = clos s -> queue s0 = queue s -> thrs s0 = thrs s -> exit_ s0 = exit_ s -> threads s0 = threads s ->
-  nclients s0 = nclients s ->
+Lemma invc_worker_cs s s0 w old : InvC s -> T s w = Some old -> stopper old = false ->
+  thrs s0 = thrs s -> nclients s0 = nclients s -> exit_ s0 = exit_ s -> stopped s0 = stopped s -> queue s0 = queue s ->
+  (forall j, j <> w -> is_woken s0 j = is_woken s j) -> (exit_ s0 = false -> woken s0 = []) ->
   InvC (fst (worker_cs s0 w)).
 Proof.
-  intros B C H OLD Ecl Eq Et Ee Eth En.
-  pose proof (c_le s C) as LE.
-  assert (SP : is_sleep old = true -> 1 <= sleepers s).
-  { intros X. destruct OLD as [[-> _]|[-> _]]; [discriminate|]. eapply sleepers_pos, H. }
-  assert (FR : forall p s2, thrs s2 = thrs s0 -> nclients s2 = nclients s0 -> tokens s2 = tokens s0 ->
-             exit_ s2 = exit_ s0 -> threads s2 = threads s0 ->
-             (forall l q a, p <> Join l q a) ->
-             (exit_ s0 = true -> p = WExit) ->
+  intros C H NSo Et En Ee Es Eq Ew Ew0.
+  assert (FR : forall p s2, thrs s2 = thrs s0 -> nclients s2 = nclients s0 -> exit_ s2 = exit_ s0 ->
+             stopped s2 = stopped s0 -> woken s2 = woken s0 -> stopper p = false ->
+             (forall l q a, p <> SWait l q a) ->
+             (exit_ s0 = true -> p <> WSleep) ->
              (exit_ s0 = false -> wpc_ok p = true /\ (awake p = true \/ queue s2 = [])) ->
-             (is_sleep p = true -> exit_ s0 = false) ->
              InvC (with_thr s2 w p)).
-  { intros p s2 E1 E2 E3 E4 E5 NJ PX PN PS.
-    assert (Et2 : thrs (with_thr s2 w p) = set_nth (thrs s) w p) by (unfold with_thr; cbn [thrs]; rewrite E1, Et; reflexivity).
-    pose proof (sleepers_set s _ w p old H Et2) as SL.
-    assert (TK : tokens (with_thr s2 w p) = tokens s0) by (unfold with_thr; cbn [tokens]; exact E3).
-    assert (EX : exit_ (with_thr s2 w p) = exit_ s) by (unfold with_thr; cbn [exit_]; congruence).
-    apply (invc_frame s _ w p old B C H).
-    - exact Et2.
-    - unfold with_thr; cbn [nclients]. congruence.
-    - rewrite TK. destruct OLD as [[-> K]|[-> [K P]]]; cbn [is_sleep b2n] in SL.
-      + destruct (is_sleep p); cbn [b2n] in SL; lia.
-      + pose proof (SP eq_refl). destruct (is_sleep p); cbn [b2n] in SL; lia.
-    - rewrite TK, EX. intros X. pose proof (c_ex s C X) as K2. rewrite Ee in PX. pose proof (PX X) as EP. subst p. cbn [is_sleep b2n] in SL.
-      destruct OLD as [[-> K]|[-> [K P]]]; cbn [is_sleep b2n] in SL; lia.
-    - intros X Q. rewrite EX in X. rewrite Ee in PN. destruct (PN X) as [_ [A|A]].
-      + right. exists w, p. split; [|exact A]. rewrite (TT_set s _ w p old H Et2), Nat.eqb_refl. reflexivity.
-      + exfalso. apply Q. unfold with_thr. cbn [queue]. exact A.
-    - rewrite EX. intros X. split; [exact X|]. intros _. rewrite Ee in PN. apply (PN X).
-    - intros l q a E. exfalso. eapply NJ, E.
-    - left. unfold with_thr; cbn [threads]. congruence. }
+  { intros p s2 E1 E2 E3 E4 E5 NSp NSW PX PN.
+    set (s' := with_thr s2 w p).
+    assert (Et2 : thrs s' = set_nth (thrs s) w p) by (unfold s', with_thr; cbn [thrs]; rewrite E1, Et; reflexivity).
+    assert (W' : forall j, is_woken s' j = is_woken s0 j) by (intros j; unfold is_woken, s', with_thr; cbn [woken]; rewrite E5; reflexivity).
+    apply (invc_frame s s' w p old C H Et2).
+    - unfold s', with_thr; cbn [nclients]. congruence.
+    - change (exit_ s') with (exit_ s2). rewrite E3. intros X. split.
+      + intros j Nj Hj. rewrite W', Ew by exact Nj. apply (c_ex s C); [congruence|exact Hj].
+      + intros Q. exfalso. apply (PX X Q).
+    - change (stopped s') with (stopped s2). rewrite E4, Es. intros X. split.
+      + intros j l q a Nj Hj. rewrite W', Ew by exact Nj. apply (c_st s C X j l q a Hj).
+      + intros l q a Q. exfalso. apply (NSW l q a Q).
+    - change (exit_ s') with (exit_ s2). change (stopped s') with (stopped s2). rewrite E3, E4, Ee, Es. intros X Sf.
+      destruct (c_first s C X Sf) as (t & pt & Ht & Sp). right. exists t, pt. repeat split; auto.
+      intros ->. unfold T in *. congruence.
+    - intros X Q. change (exit_ s') with (exit_ s2) in X. rewrite E3 in X. destruct (PN X) as [_ [A|A]].
+      + right. exists w, p. split; [|exact A]. rewrite (TT_set s s' w p old H Et2), Nat.eqb_refl. reflexivity.
+      + exfalso. apply Q. exact A.
+    - change (exit_ s') with (exit_ s2). rewrite E3. intros X. split; [congruence|]. intros _. apply (PN X).
+    - intros l q f a w0 E. subst p. discriminate.
+    - change (exit_ s') with (exit_ s2). change (woken s') with (woken s2). rewrite E3, E5. exact Ew0. }
   unfold worker_cs. destruct (exit_ s0) eqn:EX.
-  - cbn [fst]. apply FR; auto; try discriminate.
+  - cbn [fst]. destruct (exit_pc_dtor s0 w) as (X1 & _).
+    apply FR; auto; try discriminate.
+    + intros l q a E. unfold exit_pc in E. destruct (Nat.ltb w (nclients s0)); [|discriminate].
+      destruct (next_client_plain w (nth w (cont s0) [])) as (Y & _). rewrite E in Y. discriminate.
+    + intros _ E. unfold exit_pc in E. destruct (Nat.ltb w (nclients s0)); [|discriminate].
+      unfold next_client in E. destruct (nth w (cont s0) []); [destruct (Nat.eqb w 0)|]; discriminate.
   - destruct (queue s0) as [|c0 r] eqn:QQ.
     + cbn [fst]. apply FR; auto; try discriminate.
-    + unfold run_job. replace (clos (with_queue s0 r)) with (clos s0) by reflexivity.
-      destruct (nth_error (clos s0) c0) as [x|] eqn:E.
-      * cbn [fst]. apply FR.
-        -- reflexivity.
-        -- reflexivity.
-        -- reflexivity.
-        -- exact EX.
-        -- reflexivity.
-        -- intros l q a. destruct (cb x); discriminate.
-        -- discriminate.
-        -- intros _. destruct (cb x); cbn; auto.
-        -- destruct (cb x); discriminate.
-      * cbn [fst]. apply FR.
-        -- reflexivity.
-        -- reflexivity.
-        -- reflexivity.
-        -- exact EX.
-        -- reflexivity.
-        -- discriminate.
-        -- discriminate.
-        -- intros _. cbn. auto.
-        -- discriminate.
+    + unfold run_job. destruct (nth_error (clos (with_queue s0 r)) c0) as [x|].
+      * cbn [fst]. assert (A : awake (job_next (cb x)) = true) by (destruct (cb x) as [|[] ?]; reflexivity).
+        apply FR; try reflexivity; try discriminate; try exact EX.
+        -- destruct (job_next_dtor (cb x)); auto.
+        -- intros l q a E. rewrite E in A. discriminate.
+        -- intros _. split; [unfold wpc_ok; destruct (job_next (cb x)); auto|left; exact A].
+      * cbn [fst]. apply FR; try reflexivity; try discriminate; try exact EX. intros _. split; [reflexivity|left; reflexivity].
 Qed.
+
+Lemma invc_wake_same s i : InvC s -> (exists p, T s i = Some p /\ is_sleep p = true /\ p <> WSleep) ->
+  stopped s = false -> exit_ s = true -> InvC (wake s i).
+Proof.
+  intros C (p & H & S & NW) Sf X.
+  assert (TH : thrs (wake s i) = thrs s) by (unfold wake; destruct (is_woken s i); reflexivity).
+  assert (EXq : exit_ (wake s i) = exit_ s) by (unfold wake; destruct (is_woken s i); reflexivity).
+  assert (STq : stopped (wake s i) = stopped s) by (unfold wake; destruct (is_woken s i); reflexivity).
+  assert (NC : nclients (wake s i) = nclients s) by (unfold wake; destruct (is_woken s i); reflexivity).
+  assert (TT : forall j, T (wake s i) j = T s j) by (intros j; unfold T; rewrite TH; reflexivity).
+  destruct C as [C1 C2 C3 C4 C5 C6 C7 C8].
+  constructor.
+  - intros _ j Hj. rewrite TT in Hj. rewrite is_woken_wake; [apply C1; auto|].
+    intros ->. unfold T in *. rewrite H in Hj. inversion Hj. subst p. apply NW. reflexivity.
+  - rewrite STq, Sf. discriminate.
+  - rewrite EXq, STq. intros A Bq. destruct (C3 A Bq) as (t & pt & Ht & Sp). exists t, pt. rewrite TT. auto.
+  - apply wake_exit. congruence.
+  - rewrite EXq, X. discriminate.
+  - rewrite NC. unfold wake. destruct (is_woken s i); exact C6.
+  - intros t l q f a w. rewrite TT. unfold poolw. rewrite NC, TH. apply C7.
+  - rewrite EXq, X. discriminate.
+Qed.
+
+Theorem invc_core s i : InvB s -> InvC s -> enabled s i = true -> InvC (cstep s i).
+Proof.
+  intros B C EN. unfold cstep, core. unfold enabled in EN.
+  destruct (nth_error (thrs s) i) as [p|] eqn:H; [|discriminate].
+  assert (HT : T s i = Some p) by exact H.
+  pose proof (b_class s B i p HT) as [CL1 CL2].
+  destruct p as [prog| | | | | |l k r|l r|l r|r|q r| |l q f a|l q a|a].
+  - assert (NW : ~ nclients s <= i).
+    { intros L. specialize (CL1 L). discriminate. }
+    destruct prog as [|[l k b| |] r].
+    + cbn [fst]. destruct (next_client_plain i []) as (X1 & _).
+      apply (invc_move s i _ (CAt []) C HT); auto; try (intros; lia); try discriminate.
+      * unfold next_client. destruct (Nat.eqb i 0); reflexivity.
+      * intros l q f a w E. rewrite E in X1. discriminate.
+    + pose proof (invc_enqueue s i l k b (next_client i r) _ B C HT) as E.
+      destruct (enqueue s i l k b) as [s1 e]. cbn [fst] in *. destruct (next_client_dtor i r) as (X1 & _).
+      apply E; auto; try (intros; lia). unfold next_client. destruct r; [destruct (Nat.eqb i 0)|]; reflexivity.
+    + pose proof (invc_stop_mark s i (AClient r) _ B C HT) as E.
+      destruct (stop_mark s i (AClient r)) as [s1 e]. cbn [fst] in *. apply E; reflexivity.
+    + pose proof (invc_worker_cs s (with_ext s i r) i _ C HT) as E.
+      destruct (worker_cs (with_ext s i r) i) as [s1 e]. cbn [fst] in *. apply E; auto. apply (c_wk0 s C).
+  - cbn [fst]. apply (invc_move s i CDtor CXWait C HT); auto; try discriminate.
+    intros _ L. specialize (CL1 L). discriminate.
+  - pose proof (invc_stop_mark s i ADtor _ B C HT) as E.
+    destruct (stop_mark s i ADtor) as [s1 e]. cbn [fst] in *. apply E; reflexivity.
+  - discriminate.
+  - pose proof (invc_worker_cs s s i _ C HT) as E.
+    destruct (worker_cs s i) as [s1 e]. cbn [fst] in *. apply E; auto. apply (c_wk0 s C).
+  - pose proof (invc_worker_cs s (wake s i) i _ C HT) as E.
+    destruct (worker_cs (wake s i) i) as [s1 e]. cbn [fst] in *.
+    apply E; auto; try (unfold wake; destruct (is_woken s i); reflexivity).
+    + intros j Nj. apply is_woken_wake, Nj.
+    + intros X. assert (X0 : exit_ s = false) by (unfold wake in X; destruct (is_woken s i); exact X).
+      pose proof (c_wk0 s C X0) as W0. unfold wake, is_woken. rewrite W0. cbn [existsb]. exact W0.
+  - pose proof (invc_enqueue s i l k [] (job_next r) _ B C HT) as E.
+    destruct (enqueue s i l k []) as [s1 e]. cbn [fst] in *. destruct (job_next_dtor r) as (X1 & _).
+    assert (A : awake (job_next r) = true) by (destruct r as [|[] ?]; reflexivity).
+    apply E; auto.
+    + destruct r as [|[] ?]; reflexivity.
+    + intros _. destruct r as [|[] ?]; reflexivity.
+  - pose proof (invc_enqueue s i l KHop r WIdle _ B C HT) as E.
+    destruct (enqueue s i l KHop r) as [s1 e]. cbn [fst] in *. apply E; auto.
+  - cbn [fst]. assert (A : awake (job_next r) = true) by (destruct r as [|[] ?]; reflexivity).
+    assert (W : wpc_ok (job_next r) = true) by (destruct r as [|[] ?]; reflexivity).
+    assert (S : is_sleep (job_next r) = false) by (destruct r as [|[] ?]; reflexivity).
+    assert (NJ : forall l0 q f a, job_next r <> Join l0 q f a) by (intros; destruct r as [|[] ?]; discriminate).
+    apply (invc_move s i _ (WPeek l r) C HT); destruct (exit_ s); auto; try discriminate;
+      intros l0 q f a w E; exfalso; eapply NJ, E.
+  - pose proof (invc_stop_mark s i (AWorker false r) _ B C HT) as E.
+    destruct (stop_mark s i (AWorker false r)) as [s1 e]. cbn [fst] in *. apply E; reflexivity.
+  - cbn [fst]. assert (A : awake (job_next r) = true) by (destruct r as [|[] ?]; reflexivity).
+    assert (W : wpc_ok (job_next r) = true) by (destruct r as [|[] ?]; reflexivity).
+    assert (S : is_sleep (job_next r) = false) by (destruct r as [|[] ?]; reflexivity).
+    assert (NJ : forall l0 q f a, job_next r <> Join l0 q f a) by (intros; destruct r as [|[] ?]; discriminate).
+    apply (invc_move s i _ (WQry q r) C HT); auto; try discriminate;
+      intros l0 q0 f a w E; exfalso; eapply NJ, E.
+  - discriminate.
+  - (* join loop *)
+    assert (F : f = true) by (eapply (b_first s B); exact HT). subst f.
+    assert (EXT : exit_ s = true) by (apply (b_join s B i _ HT); reflexivity).
+    assert (AW : InvC (fst (after_wait s i [] q true a))).
+    { apply (invc_aw s s i [] q true a _ C HT); auto.
+      - intros j p _ Hj S [->|ST]; [apply (c_ex s C EXT j Hj)|].
+        destruct p; try discriminate; [apply (c_ex s C EXT j Hj)|apply (c_st s C ST j _ _ _ Hj)].
+      - intros w []. }
+    destruct l as [|w0 [|w1 l]].
+    + unfold after_wait in AW. destruct (stop_end s i q true a) as [s1 e]. exact AW.
+    + unfold after_wait in AW. destruct (stop_end s i q true a) as [s1 e]. exact AW.
+    + cbn [fst]. apply (invc_move s i _ (Join (w0 :: w1 :: l) q true a) C HT); auto.
+      * rewrite EXT. discriminate.
+      * intros l0 q0 f a0 w E Hin. inversion E; subst. eexists. split; [reflexivity|right; exact Hin].
+  - (* woken inside stop() *)
+    destruct (b_swait s B i l q a HT) as (L0 & Q1 & CU). subst l q.
+    assert (EXT : exit_ s = true) by (apply (b_join s B i _ HT); reflexivity).
+    destruct (stopped s) eqn:ST.
+    + assert (AW : InvC (fst (after_wait (wake s i) i [] [] false a))).
+      { apply (invc_aw s (wake s i) i [] [] false a _ C HT); try (unfold wake; destruct (is_woken s i); auto; fail).
+        - intros j p Nj Hj S _. change (existsb (Nat.eqb j) (woken (wake s i))) with (is_woken (wake s i) j).
+          rewrite is_woken_wake by exact Nj. destruct p; try discriminate; [apply (c_ex s C EXT j Hj)|apply (c_st s C ST j _ _ _ Hj)].
+        - intros X. exfalso. unfold wake in X. destruct (is_woken s i); cbn in X; congruence.
+        - intros w []. }
+      destruct (after_wait (wake s i) i [] [] false a) as [s1 e]. exact AW.
+    + cbn [fst]. apply invc_wake_same; auto. exists (SWait [] [] a). repeat split; auto. discriminate.
+  - (* the first stop sets _stopped *)
+    assert (EXT : exit_ s = true) by (apply (b_join s B i _ HT); reflexivity).
+    assert (AW : InvC (fst (after_wait (finished s (sleeper_ids s)) i [] [] false a))).
+    { apply (invc_aw s (finished s (sleeper_ids s)) i [] [] false a _ C HT); auto.
+      - intros j p _ Hj S _. apply (sleeper_ids_in s j p Hj S).
+      - intros w []. }
+    rewrite <- returned_as_aw in AW. destruct (returned (finished s (sleeper_ids s)) i a) as [s1 e]. exact AW.
+Qed.
+
+Lemma invc_uad s b : InvC s -> InvC (with_uad s b).
+Proof. intros [C1 C2 C3 C4 C5 C6 C7 C8]. constructor; auto. Qed.
 
 Theorem invc_step s i : InvB s -> InvC s -> enabled s i = true -> InvC (step s i).
 Proof.
-  intros B C EN. unfold step, tstep. unfold enabled in EN.
-  destruct (nth_error (thrs s) i) as [p|] eqn:H; [|discriminate].
-  destruct p as [prog| | | | | |l k| | |l q a].
-  - assert (NW : ~ nclients s <= i) by (apply (client_not_worker s i _ B H); reflexivity).
-    destruct prog as [|[l k b|] r].
-    + cbn [fst]. destruct (next_client_props i []) as (X1 & X2 & X3 & X4).
-      apply (invc_same s i _ (CAt []) B C H); auto. intros l q a E. exfalso. eapply X3, E.
-    + pose proof (invc_enqueue s i l k b (next_client i r) _ B C H) as E.
-      destruct (enqueue s i l k b) as [s1 e]. cbn [fst] in *.
-      destruct (next_client_props i r) as (X1 & X2 & X3 & X4). apply E; auto; intros; lia.
-    + pose proof (invc_stop_mark s i (AClient r) _ B C H) as E.
-      destruct (stop_mark s i (AClient r)) as [s1 e]. cbn [fst] in *. apply E. reflexivity.
-  - assert (NW : ~ nclients s <= i) by (apply (client_not_worker s i _ B H); reflexivity).
-    cbn [fst]. apply (invc_same s i CDtor CXWait B C H); auto; try discriminate; intros; lia.
-  - pose proof (invc_stop_mark s i ADtor _ B C H) as E.
-    destruct (stop_mark s i ADtor) as [s1 e]. cbn [fst] in *. apply E. reflexivity.
-  - discriminate.
-  - pose proof (invc_worker_cs s s i WIdle B C H) as E.
-    destruct (worker_cs s i) as [s1 e]. cbn [fst] in *. apply E; auto.
-  - pose proof (invc_worker_cs s (with_tokens s (pred (tokens s))) i WSleep B C H) as E.
-    destruct (worker_cs (with_tokens s (pred (tokens s))) i) as [s1 e]. cbn [fst] in *. apply E; auto.
-    right. repeat split. apply Nat.ltb_lt. exact EN.
-  - pose proof (invc_enqueue s i l k BNone WIdle _ B C H) as E.
-    destruct (enqueue s i l k BNone) as [s1 e]. cbn [fst] in *. apply E; auto; discriminate.
-  - pose proof (invc_stop_mark s i (AWorker false) _ B C H) as E.
-    destruct (stop_mark s i (AWorker false)) as [s1 e]. cbn [fst] in *. apply E. reflexivity.
-  - discriminate.
-  - assert (EXT : exit_ s = true) by (eapply (b_join s B); exact H).
-    assert (SE : InvC (fst (stop_end s i q a))).
-    { apply (invc_stop_end s s i q a _ B C H); auto. - apply (c_le s C). - apply (c_ex s C EXT). }
-    destruct l as [|w0 [|w1 l]].
-    + destruct (stop_end s i q a) as [s1 e]. exact SE.
-    + destruct (stop_end s i q a) as [s1 e]. exact SE.
-    + cbn [fst]. apply (invc_same s i _ (Join (w0 :: w1 :: l) q a) B C H); auto.
-      * intros X. congruence.
-      * intros l0 q0 a0 E. inversion E; subst. exists (w0 :: w1 :: l). split; [reflexivity|]. intros w Hin. right. exact Hin.
-Qed.
-
-Lemma init_shape2 ops : exists m cl n, 0 < m /\ 1 <= n /\ length cl = m /\ nclients (init ops) = m /\
-  thrs (init ops) = cl ++ repeat WIdle n /\ threads (init ops) = seq m n /\
-  queue (init ops) = [] /\ exit_ (init ops) = false /\ tokens (init ops) = 0 /\
-  (forall p, In p cl -> exists i r, p = next_client i r).
-Proof.
-  unfold init. set (d := decode ops). set (m := Nat.min (S (dmax d)) 3).
-  exists m, (map (fun ip => next_client (fst ip) (snd ip)) (combine (seq 0 m) (firstn m [dp0 d; dp1 d; dp2 d]))), (Nat.max 1 (dn d)).
-  assert (M : 0 < m <= 3) by (unfold m; lia).
-  repeat split; try reflexivity; try lia.
-  - rewrite map_length, combine_length, seq_length, firstn_length. cbn [length]. lia.
-  - intros p Hin. apply in_map_iff in Hin. destruct Hin as ([i r] & <- & _). exists i, r. reflexivity.
+  intros B C EN. pose proof (invc_core s i B C EN) as X.
+  destruct (step_core s i) as [-> | ->]; [exact X|apply invc_uad, X].
 Qed.
 
 Lemma invc_init ops : InvC (init ops).
 Proof.
-  destruct (init_shape2 ops) as (m & cl & n & M & N & LC & NC & TH & THR & Q & EX & TK & SH).
-  assert (CLS : forall i p, T (init ops) i = Some p -> (exists j r, p = next_client j r) \/ p = WIdle).
-  { intros i p H. unfold T in H. rewrite TH in H. apply nth_error_In, in_app_or in H. destruct H as [H|H].
-    - left. apply SH, H.
-    - right. apply repeat_spec in H. exact H. }
-  assert (NOJ : forall i l q a, T (init ops) i <> Some (Join l q a)).
-  { intros i l q a H. destruct (CLS i _ H) as [(j & r & E)|E]; [|discriminate].
-    destruct (next_client_props j r) as (_ & _ & X & _). eapply X. symmetry. exact E. }
+  destruct (init_shape ops) as (m & cl & n & M & N & LC & NC & TH & THR & Q & EX & ST & DE & TK & WK & CLO & XW & UA & SH).
+  pose proof (init_cls ops) as CLS.
+  assert (PL : forall i p, T (init ops) i = Some p -> in_stop p = false /\ p <> WSleep).
+  { intros i p H. destruct (CLS i p H) as [(L & r & ->)|(L & ->)]; [|split; [reflexivity|discriminate]].
+    destruct (next_client_plain i r) as (X & _). split; [exact X|].
+    unfold next_client. destruct r; [destruct (Nat.eqb i 0)|]; discriminate. }
   constructor.
-  - rewrite TK. lia.
   - rewrite EX. discriminate.
-  - apply wake_empty. exact Q.
-  - intros _ i p H L. unfold T in H. rewrite TH in H. rewrite NC in L.
-    rewrite nth_error_app2 in H by lia. apply nth_error_In, repeat_spec in H. subst. reflexivity.
+  - rewrite ST. discriminate.
+  - rewrite EX. discriminate.
+  - apply wake_empty, Q.
+  - intros _ i p H L. destruct (CLS i p H) as [(L2 & _)|(_ & ->)]; [lia|reflexivity].
   - rewrite NC, TH, app_length, repeat_length. lia.
-  - intros i j l q a l' q' a' H. exfalso. eapply NOJ, H.
-  - intros i l q a w H. exfalso. eapply NOJ, H.
-  - intros w Hin. rewrite THR in Hin. apply in_seq in Hin. rewrite NC, TH, app_length, repeat_length. lia.
+  - intros t l q f a w H. destruct (PL t _ H) as [X _]. discriminate.
+  - intros _. exact WK.
 Qed.
 
 Theorem invc_reachable ops s : reachable ops s -> InvC s.
@@ -384,21 +456,17 @@ Qed.
 
 (* ---------- deadlock freedom ---------- *)
 Definition at_point (p : pc) : bool :=
-  match p with CAt _ | CDtor | WIdle | WSub _ _ | WStop | Join [] _ _ => true | _ => false end.
+  match p with
+  | CAt _ | CDtor | WIdle | WSub _ _ _ | WHop _ _ | WPeek _ _ | WStop _ | WQry _ _ | SFin _ | Join [] _ _ _ => true
+  | _ => false
+  end.
+
+(* a deadlock of the client program, not of the pool: a client thread sits in worker() of an idle pool that nobody stops *)
+Definition user_stuck (s : st) : Prop :=
+  exit_ s = false /\ queue s = [] /\ exists j, j < nclients s /\ T s j = Some WSleep.
 
 Lemma at_point_enabled s i p : T s i = Some p -> at_point p = true -> enabled s i = true.
-Proof. unfold T, enabled. intros -> A. destruct p as [| | | | | | | | |[|w l] q a]; try discriminate; reflexivity. Qed.
-
-Lemma existsb_false_all {A} (f : A -> bool) l : (forall x, In x l -> f x = false) -> existsb f l = false.
-Proof. induction l as [|x l IH]; intros F; [reflexivity|]. cbn. rewrite F, IH; auto. - intros; apply F; right; auto. - left; auto. Qed.
-
-Lemma sleeper_exists s : 1 <= sleepers s -> exists i, T s i = Some WSleep.
-Proof.
-  unfold sleepers. intros H. destruct (filter is_sleep (thrs s)) as [|p l] eqn:E; [cbn in H; lia|].
-  assert (X : In p (filter is_sleep (thrs s))) by (rewrite E; left; reflexivity).
-  apply filter_In in X. destruct X as [X1 X2]. destruct p; try discriminate.
-  apply In_nth_error in X1. exact X1.
-Qed.
+Proof. unfold T, enabled. intros -> A. destruct p as [| | | | | | | | | | | |[|w l] q f a| |]; try discriminate; reflexivity. Qed.
 
 Lemma dec_thr s (f : pc -> bool) :
   (exists i p, T s i = Some p /\ f p = true) \/ (forall i p, T s i = Some p -> f p = false).
@@ -411,85 +479,96 @@ Proof.
     congruence.
 Qed.
 
-Lemma classic_join s : (exists i w l q a, T s i = Some (Join (w :: l) q a)) \/
-                       ~ (exists i w l q a, T s i = Some (Join (w :: l) q a)).
+Lemma sleeper_enabled s i p : T s i = Some p -> is_sleep p = true -> (0 < tokens s \/ is_woken s i = true) -> enabled s i = true.
 Proof.
-  destruct (dec_thr s (fun p => match p with Join (_ :: _) _ _ => true | _ => false end)) as [(i & p & H & A)|N].
-  - left. destruct p as [| | | | | | | | |[|w l] q a]; try discriminate. exists i, w, l, q, a. exact H.
-  - right. intros (i & w & l & q & a & H). specialize (N i _ H). discriminate.
-Qed.
-Lemma classic_xw s : (exists i, T s i = Some CXWait) \/ ~ (exists i, T s i = Some CXWait).
-Proof.
-  destruct (dec_thr s (fun p => match p with CXWait => true | _ => false end)) as [(i & p & H & A)|N].
-  - left. destruct p; try discriminate. exists i. exact H.
-  - right. intros (i & H). specialize (N i _ H). discriminate.
-Qed.
-Lemma classic_sl s : (exists i, T s i = Some WSleep) \/ ~ (exists i, T s i = Some WSleep).
-Proof.
-  destruct (dec_thr s is_sleep) as [(i & p & H & A)|N].
-  - left. destruct p; try discriminate. exists i. exact H.
-  - right. intros (i & H). specialize (N i _ H). discriminate.
+  unfold T, enabled. intros -> S W. destruct p; try discriminate;
+    (destruct W as [W|W]; [apply Bool.orb_true_iff; left; apply Nat.ltb_lt; exact W|apply Bool.orb_true_iff; right; exact W]).
 Qed.
 
-Theorem stop_no_deadlock ops s : reachable ops s -> ~ terminal s -> exists i, enabled s i = true.
+Lemma nth_error_firstn_some {A} (l : list A) : forall n j x, nth_error (firstn n l) j = Some x -> nth_error l j = Some x /\ j < n.
 Proof.
-  intros R NT. pose proof (invb_reachable ops s R) as B. pose proof (invc_reachable ops s R) as C.
-  (* 1. some thread stands at a lock-acquisition point *)
-  destruct (existsb at_point (thrs s)) eqn:AP.
-  { apply existsb_exists in AP. destruct AP as (p & Hin & A). apply In_nth_error in Hin. destruct Hin as [i Hi].
-    exists i. eapply at_point_enabled; eassumption. }
-  assert (NP : forall i p, T s i = Some p -> at_point p = false).
-  { intros i p H. destruct (at_point p) eqn:A; [|reflexivity].
-    assert (X : existsb at_point (thrs s) = true) by (apply existsb_exists; exists p; split; [eapply nth_error_In, H|exact A]).
-    congruence. }
-  (* a sleeping worker can always be woken once exit is set *)
-  assert (SLEEP_EXIT : exit_ s = true -> forall w, T s w = Some WSleep -> enabled s w = true).
-  { intros X w H. unfold enabled. unfold T in H. rewrite H. apply Nat.ltb_lt.
-    pose proof (c_ex s C X). pose proof (sleepers_pos s w H). lia. }
+  induction l as [|y l IH]; intros [|n] [|j] x H; cbn in *; try discriminate.
+  - split; [exact H|lia].
+  - destruct (IH n j x H). split; [assumption|lia].
+Qed.
+
+Theorem stop_no_deadlock ops s : reachable ops s -> ~ terminal s -> (exists i, enabled s i = true) \/ user_stuck s.
+Proof.
+  intros R NT. pose proof (invb_reachable ops s R) as B. pose proof (invu_reachable ops s R) as U.
+  pose proof (invc_reachable ops s R) as C.
+  (* 1. some thread stands at a lock acquisition *)
+  destruct (dec_thr s at_point) as [(i & p & H & A)|NP].
+  { left. exists i. eapply at_point_enabled; eassumption. }
   (* 2. a thread is joining *)
-  destruct (classic_join s) as [(i & w & l & q & a & H)|NJ].
-  { pose proof (b_join s B _ _ _ _ H) as X.
-    destruct (c_jw s C i _ q a w H (or_introl eq_refl)) as (NE & L1 & L2).
+  destruct (dec_thr s (fun p => match p with Join (_ :: _) _ _ _ => true | _ => false end)) as [(i & p & H & A)|NJ].
+  { left. destruct p as [| | | | | | | | | | | |[|w l] q f a| |]; try discriminate.
+    pose proof (b_join s B i _ H eq_refl) as X.
+    destruct (c_jw s C i _ q f a w H (or_introl eq_refl)) as ([L1 L2] & NE).
     destruct (nth_error (thrs s) w) as [pw|] eqn:E; [|apply nth_error_None in E; lia].
-    destruct pw as [pr| | | | | |l0 k0| | |l0 q0 a0].
-    - exists w. eapply at_point_enabled; [exact E|reflexivity].
-    - exfalso. pose proof (b_class s B w CXWait E) as [Y _]. specialize (Y eq_refl). lia.
-    - exists w. eapply at_point_enabled; [exact E|reflexivity].
-    - exfalso. pose proof (b_class s B w CDone E) as [Y _]. specialize (Y eq_refl). lia.
-    - exists w. eapply at_point_enabled; [exact E|reflexivity].
-    - exists w. apply SLEEP_EXIT; assumption.
-    - exists w. eapply at_point_enabled; [exact E|reflexivity].
-    - exists w. eapply at_point_enabled; [exact E|reflexivity].
+    destruct (at_point pw) eqn:AP; [exists w; eapply at_point_enabled; eassumption|].
+    destruct pw as [| | | | | | | | | | | |l0 q0 f0 a0|l0 q0 a0|]; try discriminate AP.
+    - exfalso. pose proof (proj1 (b_class s B w _ E) L1). discriminate.
+    - exfalso. pose proof (proj1 (b_class s B w _ E) L1). discriminate.
+    - exists w. apply (sleeper_enabled s w WSleep E eq_refl). right. apply (c_ex s C X w E).
     - exists i. unfold enabled. unfold T in H. rewrite H. unfold is_wexit. rewrite E. reflexivity.
-    - exfalso. apply NE. eapply (c_uniq s C); [exact E|exact H]. }
-  (* 3. nobody at a point, nobody joining: only CXWait, CDone, WSleep, WExit are left *)
-  assert (CL : forall i p, T s i = Some p -> p = CXWait \/ p = CDone \/ p = WSleep \/ p = WExit).
-  { intros i p H. pose proof (NP i p H) as A. destruct p as [| | | | | | | | |[|w l] q a]; try discriminate; auto.
-    exfalso. apply NJ. exists i, w, l, q, a. exact H. }
-  destruct (classic_xw s) as [(i & H)|NX].
-  - (* the destructor's lifetime wait *)
-    destruct (queue s) as [|c0 r] eqn:Q.
-    + exists i. unfold enabled. unfold T in H. rewrite H. unfold xwait_ok. rewrite Q. cbn [existsb negb andb].
-      rewrite !existsb_false_all; [reflexivity| |].
-      * intros p Hin. apply In_nth_error in Hin. destruct Hin as [j Hj]. destruct (CL j p Hj) as [->|[->|[->| ->]]]; reflexivity.
-      * intros p Hin. apply In_nth_error in Hin. destruct Hin as [j Hj]. destruct (CL j p Hj) as [->|[->|[->| ->]]]; reflexivity.
-    + assert (X : exit_ s = false).
-      { destruct (exit_ s) eqn:X; [|reflexivity]. destruct (b_exit s B X) as [Y _]. congruence. }
-      destruct (c_wake s C X) as [TK|(j & pj & Hj & Aj)]; [rewrite Q; discriminate| |].
-      * pose proof (c_le s C). destruct (sleeper_exists s) as [j Hj]; [lia|].
-        exists j. unfold enabled. unfold T in Hj. rewrite Hj. apply Nat.ltb_lt. exact TK.
-      * exfalso. destruct (CL j pj Hj) as [->|[->|[->| ->]]]; discriminate.
-  - (* no CXWait: client 0 is done, so the pool is destroyed and exit is set *)
-    assert (D : destroyed s = true).
-    { apply (b_done0 s B). pose proof (b_ncl s B) as [N1 N2].
-      destruct (nth_error (thrs s) 0) as [p|] eqn:E; [|apply nth_error_None in E; lia].
-      pose proof (b_class s B 0 p E) as [_ Y]. specialize (Y N1).
-      destruct (CL 0 p E) as [->|[->|[->| ->]]]; try discriminate; [|exact E].
-      exfalso. apply NX. exists 0. exact E. }
-    pose proof (b_destr s B D) as X.
-    destruct (classic_sl s) as [(j & Hj)|NS].
-    + exists j. apply SLEEP_EXIT; assumption.
-    + exfalso. apply NT. intros i p H. destruct (CL i p H) as [->|[->|[->| ->]]]; auto.
-      * exfalso. apply NX. exists i. exact H.
-      * exfalso. apply NS. exists i. exact H.
+    - exfalso. apply NE. eapply (u_uniq s U); [exact E|exact H|reflexivity|reflexivity].
+    - exfalso. destruct (b_swait s B w _ _ _ E) as (_ & _ & CU).
+      pose proof (proj1 (b_class s B w _ E) L1) as Q. cbn [is_client] in Q. destruct a0; discriminate. }
+  (* 3. nobody at a lock, nobody joining: CXWait, CDone, WSleep, WExit and stops waiting for another stop *)
+  assert (CL : forall i p, T s i = Some p -> p = CXWait \/ p = CDone \/ p = WSleep \/ p = WExit \/ exists l q a, p = SWait l q a).
+  { intros i p H. pose proof (NP i p H) as A. pose proof (NJ i p H) as J.
+    destruct p as [| | | | | | | | | | | |[|w l] q f a|l q a|]; try discriminate; auto 6.
+    right. right. right. right. eauto. }
+  destruct (dec_thr s (fun p => match p with SWait _ _ _ => true | _ => false end)) as [(i & p & H & A)|NS].
+  { destruct p; try discriminate. pose proof (b_join s B i _ H eq_refl) as X.
+    destruct (stopped s) eqn:ST.
+    - left. exists i. apply (sleeper_enabled s i _ H eq_refl). right. eapply (c_st s C ST); exact H.
+    - exfalso. destruct (c_first s C X ST) as (t & pt & Ht & Sp).
+      pose proof (NP t pt Ht) as A1. pose proof (NJ t pt Ht) as A2.
+      destruct pt as [| | | | | | | | | | | |[|w0 l0] q0 f0 a0| |]; discriminate. }
+  assert (CL2 : forall i p, T s i = Some p -> p = CXWait \/ p = CDone \/ p = WSleep \/ p = WExit).
+  { intros i p H. destruct (CL i p H) as [X|[X|[X|[X|(l & q & a & X)]]]]; auto. subst p. specialize (NS i _ H). discriminate. }
+  assert (XW : forall i, T s i = Some CXWait -> (forall j p, j < nclients s -> T s j = Some p -> p <> WSleep) -> enabled s i = true).
+  { intros i H NSL. unfold enabled. unfold T in H. rewrite H. unfold xwait_ok. apply forallb_forall. intros p Hin.
+    apply In_nth_error in Hin. destruct Hin as [j Hj].
+    destruct (nth_error_firstn_some _ _ _ _ Hj) as [Hj' Lj].
+    destruct (CL2 j p Hj') as [->|[->|[->| ->]]]; try reflexivity.
+    - exfalso. eapply NSL; eauto.
+    - exfalso. apply (proj2 (b_class s B j WExit Hj') Lj). reflexivity. }
+  destruct (exit_ s) eqn:X.
+  - left. destruct (dec_thr s is_sleep) as [(i & p & H & S)|NSL].
+    + exists i. apply (sleeper_enabled s i p H S). right.
+      destruct (CL2 i p H) as [->|[->|[->| ->]]]; try discriminate. apply (c_ex s C X i H).
+    + destruct (dec_thr s (fun p => match p with CXWait => true | _ => false end)) as [(i & p & H & A)|NX].
+      * exists i. destruct p; try discriminate. apply XW; [exact H|].
+        intros j p Lj Hj ->. specialize (NSL j _ Hj). discriminate.
+      * exfalso. apply NT. intros i p H. destruct (CL2 i p H) as [->|[->|[->| ->]]]; auto.
+        -- specialize (NX i _ H). discriminate.
+        -- specialize (NSL i _ H). discriminate.
+  - destruct (queue s) as [|c0 r] eqn:Q.
+    + (* idle pool: does a client thread sleep in worker()? *)
+      destruct (existsb (fun j => match nth_error (thrs s) j with Some WSleep => true | _ => false end) (seq 0 (nclients s))) eqn:EB.
+      * right. apply existsb_exists in EB. destruct EB as (k & Hk & Ek). apply in_seq in Hk.
+        repeat split; auto. exists k. split; [lia|]. unfold T. destruct (nth_error (thrs s) k) as [[]|]; try discriminate. reflexivity.
+      * left.
+        assert (NSL : forall k p, k < nclients s -> T s k = Some p -> p <> WSleep).
+        { intros k p Lk Hk ->.
+          assert (existsb (fun j => match nth_error (thrs s) j with Some WSleep => true | _ => false end) (seq 0 (nclients s)) = true).
+          { apply existsb_exists. exists k. split; [apply in_seq; lia|]. unfold T in Hk. rewrite Hk. reflexivity. }
+          congruence. }
+        pose proof (b_ncl s B) as [N1 N2].
+        destruct (nth_error (thrs s) 0) as [p0|] eqn:E0; [|apply nth_error_None in E0; lia].
+        destruct (CL2 0 p0 E0) as [->|[->|[->| ->]]].
+        -- exists 0. apply XW; [exact E0|exact NSL].
+        -- exfalso. pose proof (b_done0 s B E0) as D. destruct (b_destr s B D). congruence.
+        -- exfalso. apply (NSL 0 WSleep N1 E0). reflexivity.
+        -- exfalso. apply (proj2 (b_class s B 0 WExit E0) N1). reflexivity.
+    + (* work is queued: a notification is pending or a worker is awake *)
+      left. destruct (c_wake s C X) as [TK|(j & pj & Hj & Aj)]; [rewrite Q; discriminate| |].
+      * pose proof (c_hasw s C) as HW.
+        destruct (nth_error (thrs s) (nclients s)) as [pw|] eqn:E; [|apply nth_error_None in E; lia].
+        pose proof (c_wpc s C X _ _ E (le_n _)) as W.
+        destruct (CL2 _ pw E) as [->|[->|[->| ->]]]; try discriminate.
+        exists (nclients s). apply (sleeper_enabled s _ WSleep E eq_refl). left. exact TK.
+      * exfalso. destruct (CL2 j pj Hj) as [->|[->|[->| ->]]]; discriminate.
 Qed.
